@@ -36,7 +36,7 @@ fn vf_get_plan() {
             // C05 / C04: shape and order
             let shape: Vec<(usize, Vec<Vec<String>>)> = plan.command_target_groups.iter().map(|c| (c.command_index, c.target_groups.iter().map(|g| g.iter().map(|t| t.path.clone()).collect()).collect())).collect();
             let want: Vec<(usize, Vec<Vec<String>>)> = (0..commands.len()).map(|i| (i, groups.clone())).collect();
-            if shape != want { bad += 1; println!("VF-FAIL {} :: the plan lists {:?}; every command must cover exactly the given groups, in order, each target once (C05) (C04)", what, shape); continue; }
+            if shape != want { bad += 1; println!("VF-FAIL {} :: the plan lists {:?}; every command must cover exactly the given groups, in order, each target once - a group without an executable still yields its `undefined` entries (C05) (C04) (C06)", what, shape); continue; }
             // C11: resolution
             for (ci, c) in plan.command_target_groups.iter().enumerate() {
                 let cmd = commands[ci].as_str();
